@@ -265,12 +265,17 @@ class XTyper:
                     part = ctx.repo.const("tucan.graph_attributes", "PARTITION")
                     return ("Seq", (space, g), "COL" if k[1] == part else ("ATTR", k[1]), False, ("nodes", g))
                 return U("vs key")
+            def other_graph(x, y):
+                """the same kind of space on two graphs one of which was built anew in the code (its nodes may well be the
+                other's): not a mismatch this typing can name"""
+                return isinstance(x, tuple) and isinstance(y, tuple) and len(x) == 2 and len(y) == 2 and x[0] == y[0] and x[1] != y[1] \
+                    and (str(x[1]).startswith(("new", "rel", "int")) or str(y[1]).startswith(("new", "rel", "int")))
             if b[0] == "Seq" and k[0] == "Idx":
-                if k[1] != b[1] and self.strict:
+                if k[1] != b[1] and self.strict and not other_graph(k[1], b[1]):
                     raise XViolation(e, f"sequence indexed by {fmt_space(b[1])} is subscripted with an index in {fmt_space(k[1])}")
                 return ("Idx", b[2])
             if b[0] == "Map" and k[0] == "Idx":
-                if k[1] != b[1] and self.strict:
+                if k[1] != b[1] and self.strict and not other_graph(k[1], b[1]):
                     raise XViolation(e, f"map keyed by {fmt_space(b[1])} is looked up with a key in {fmt_space(k[1])}")
                 return ("Idx", b[2])
             if b[0] == "Gen" or (b[0] == "Seq" and k[0] == "Const"):
